@@ -1,5 +1,6 @@
 import RTV.Drv.Proto
 import RTV.Model.Span
+import RTV.Model.Merged
 import RTV.Model.Preprocess
 import RTV.Gen.CharTables
 import RTV.Gen.Preprocess
@@ -18,7 +19,7 @@ import RTV.Gen.Preprocess
   sp.modp <src> <start> <len> <k>                                      -> start:len:text
   sp.phone <src> <start> <len> <ms> <me>                               -> start:len:text -/
 namespace RTV.Drv.Sp
-open RTV.Drv RTV.Py RTV.Span RTV.Preprocess
+open RTV.Drv RTV.Py RTV.Span RTV.Preprocess RTV.Merged
 
 def spClass : RTV.Match.CharClass where
   isSpace c := inRangesArr RTV.Gen.spaceRanges c
@@ -143,6 +144,54 @@ def hPhone : Handler
     s!"{r.start}:{r.len}:{showCps r.text}"
   | _ => "bad-op"
 
+
+/-! merged extractor / parser (RTV.Model.Merged)
+  mg.ext <src> <inputs s:l:tag,..|..> <unspecific tags> <ambiguous tags> <ops tag:p:k,tag:e:m,..> <calendar tags>
+        -> s:l:tag:text;...|chainNoCrossing|disjoint
+  mg.pp  <kind> <ki> <kl> <kbegin> <around> <ai> <al> <isAfter> <hasValue> <reset> <start> <len> <text> <rstart> <rlen> <rtext>
+        -> pushed start:len:text|mod|popped start:len:text      (pop applied to the given inner result r)
+  mg.zh  <dst s:l:tag,..> <src s:l:tag,..> <includes v:d,..>    -> s:l:tag;...  -/
+def tagSet (f : String) : List Nat := (items f).filterMap fun | [a] => some (parseNat a) | _ => none
+
+def hMgExt : Handler
+  | [src, inputs, unspec, amb, ops, cal] =>
+    let s := parseCps src
+    let ins := (lists inputs).map fun f => (parseERs f).map fun e => { e with text := sl s e.start e.len }
+    let us := tagSet unspec
+    let am := tagSet amb
+    let ca := tagSet cal
+    let opl : List (Nat × ModOp) := (items ops).filterMap fun
+      | [t, "p", k] => some (parseNat t, ModOp.pre (parseNat k))
+      | [t, "e", m] => some (parseNat t, ModOp.ext (parseNat m))
+      | _ => none
+    let opf := fun t => (opl.filter fun x => x.1 == t).map (·.2)
+    let r := mergedExtract s ins (fun e => us.contains e.tag) (fun e => am.contains e.tag) opf (fun e => ca.contains e.tag)
+    s!"{showERs r}|{showBool (decide (ChainNoCrossing [] ins))}|{showBool (decide (r.Pairwise Disjoint))}"
+  | _ => "bad-op"
+
+def parseKind (k : String) : Kind :=
+  match k with
+  | "before" => .before | "after" => .after | "since" => .since | "equal" => .equal | "dateAfter" => .dateAfter
+  | _ => .none
+
+def showSp (x : Sp) : String := s!"{x.start}:{x.len}:{showCps x.text}"
+
+def hMgPp : Handler
+  | [k, ki, kl, kb, ar, ai, al, ia, hv, rs, st, ln, tx, rst, rln, rtx] =>
+    let f : Facts := ⟨parseKind k, (parseNat ki, parseNat kl), parseBool kb, parseBool ar, (parseNat ai, parseNat al), parseBool ia⟩
+    let e : Sp := ⟨parseInt st, parseInt ln, parseCps tx⟩
+    let p := push f e
+    let r : Sp := ⟨parseInt rst, parseInt rln, parseCps rtx⟩
+    s!"{showSp p.e}|{showCps p.modStr}|{showSp (pop f (parseBool hv) (parseBool rs) r p.modStr)}"
+  | _ => "bad-op"
+
+def hMgZh : Handler
+  | [dst, src, incl] =>
+    let inc := parsePairs incl
+    let r := zhAddTo (fun v d => inc.contains (v.tag, d.tag)) (parseERs dst) (parseERs src)
+    ";".intercalate (r.map fun e => s!"{e.start}:{e.len}:{e.tag}")
+  | _ => "bad-op"
+
 end RTV.Drv.Sp
 
 namespace RTV.Drv
@@ -163,6 +212,9 @@ def dispatchSpan (op : String) (args : List String) : Option String :=
   | "sp.disj" => some (hDisj args)
   | "sp.modp" => some (hModP args)
   | "sp.phone" => some (hPhone args)
+  | "mg.ext" => some (hMgExt args)
+  | "mg.pp" => some (hMgPp args)
+  | "mg.zh" => some (hMgZh args)
   | _ => none
 
 end RTV.Drv
